@@ -35,6 +35,14 @@ class Harness(object):
         self.viol = []
         self.samples = []
         self.by_clause = {}
+        self.collect_known = None       # (a list when tools/gen_c09_known.py collects the failing inputs of the pinned tree)
+        self.pending_key = None
+        import json
+        try:
+            with open(os.path.join(os.path.dirname(os.path.dirname(os.path.abspath(__file__))), "known_findings_data", "c09_preexisting.json")) as f:
+                self.known_cases = set(json.load(f)["cases"])
+        except (IOError, OSError, ValueError, KeyError):
+            self.known_cases = set()
 
     def binary(self, label, size):
         """the binary `label` of this case: ONE file per label, rewritten whenever a case needs other contents - all cases run
@@ -48,6 +56,8 @@ class Harness(object):
         return path, data
 
     def report(self, clause, why, case):
+        if self.collect_known is not None and clause.startswith("preexisting_waiting"):
+            self.collect_known.append(describe_key(case))
         self.by_clause[clause] = self.by_clause.get(clause, 0) + 1
         if self.by_clause[clause] <= 2 and len(self.viol) < 6:
             self.viol.append({"id": "load_%d" % self.ev, "clause": clause, "why": why, "inputs": describe(case)})
@@ -63,8 +73,11 @@ class Harness(object):
         model.chips[(3, 3)].num_cores = 17
         app_id, wait = case["app_id"], case["wait"]
         pre = case.get("pre")
+        more_pre = case.get("more_pre", ())
         if pre:
             model.set_core(pre[0], pre[1], _scamp.ST_WAIT, app_id, OLD_IMAGE)
+        for c_, p_ in more_pre:          # further cores of the same application left waiting by earlier loads
+            model.set_core(c_, p_, _scamp.ST_WAIT, app_id, OLD_IMAGE)
         model.set_core((1, 1), 5, _scamp.ST_WAIT, (app_id + 1) & 0xff, b"another application, waiting")
         model.set_core((0, 1), 7, _scamp.ST_RUN, app_id, b"same application, already running")
         model.boot(render_router=False)
@@ -144,6 +157,13 @@ class Harness(object):
         # known defect D11: another core of the same application already waits -> the count-based check is fooled;
         # variant: a REQUESTED core already waits with an earlier binary -> the state read-back cannot tell old from new
         tag = None if not pre else "preexisting_waiting_requested" if (pre[0], pre[1]) in requested else "preexisting_waiting"
+        if tag is not None:
+            # ... but only for the exact inputs listed for finding D11 (known_findings_data/c09_preexisting.json, generated once
+            # on the pinned tree by tools/gen_c09_known.py); any other input that fails is an ordinary violation
+            if self.collect_known is not None:
+                self.pending_key = describe_key(case)
+            elif describe_key(case) not in self.known_cases:
+                tag = None
 
         # ---- every flood-fill is well formed ----------------------------------------------------------
         if cur[0] is not None:
@@ -239,6 +259,7 @@ def describe(case):
             "packet_level_misses_per_fill": [{"%d,%d" % c: sorted(str(x) for x in v) for c, v in f.items()} for f in case.get("fine") or []],
             "wait": case["wait"], "use_count": case["use_count"], "n_tries": case["n_tries"], "app_id": case["app_id"],
             "already_waiting_core_of_same_app": list(case["pre"][0]) + [case["pre"][1]] if case.get("pre") else None,
+            "further_waiting_cores_of_same_app": [list(c_) + [p_] for c_, p_ in case.get("more_pre", ())],
             "fill_id_counter_start": case.get("nn_start", 0)}
 
 
@@ -274,10 +295,11 @@ def maps_over(chips, cores):
             continue
 
 
-def run(tier="quick", seed=0):
+def run(tier="quick", seed=0, _collect_known=None):
     from rig.machine_control import machine_controller as MC
     t0 = _time.time()
     h = Harness(tier, seed)
+    h.collect_known = _collect_known
     rng = h.rng
     real_sleep = MC.time.sleep
     MC.time.sleep = lambda s: None
@@ -364,6 +386,11 @@ def run(tier="quick", seed=0):
                         counts["pre"] += 1
                         h.evaluate({"targets": real, "sizes": {"A": 20, "B": 32}, "buffer": 16, "schedule": sched, "wait": wait,
                                     "use_count": use_count, "n_tries": 1, "app_id": 66, "pre": pre})
+                        if pre == pres[0] and (k % 3 == 0 or tier != "quick"):
+                            # ... and with three cores left waiting (more waiting cores than are being loaded)
+                            counts["pre"] += 1
+                            h.evaluate({"targets": real, "sizes": {"A": 20, "B": 32}, "buffer": 16, "schedule": sched, "wait": wait,
+                                        "use_count": use_count, "n_tries": 1, "app_id": 66, "pre": pre, "more_pre": [((1, 1), 4), ((3, 3), 2)]})
     finally:
         MC.time.sleep = real_sleep
         shutil.rmtree(h.tmp, ignore_errors=True)
